@@ -146,7 +146,7 @@ class Parseable(Generic[ParsedT], Writeable, metaclass=ABCMeta):
 
     _whitespace_pattern = re.compile(br' +')
     _atom_pattern = re.compile(
-        br'[\x21\x23\x24\x26\x27\x2B-\x5B\x5E-\x7A\x7C\x7E]+')
+        br'[\x21\x23\x24\x26\x27\x2B-\x5B\x5E-\x7A\x7C-\x7E]+')
 
     __slots__: list[str] = []
 
